@@ -79,6 +79,10 @@ GOALS = [
     ({'P': "'a => 'a => bool"}, '(?x. !y. P x y) --> (!y. ?x. P x y)'),
     ({'A': 'bool', 'B': 'bool'}, '(A --> B) --> (~B --> ~A)'),
     ({'A': 'bool', 'B': 'bool'}, 'A --> A --> B --> A & B'),
+    ({'P': "'a => bool", 'A': 'bool', 'B': 'bool', 'C': 'bool'}, '(?x. P x) --> (A --> C) & (B --> C)'),
+    ({'P': "'a => bool", 'Q': "'a => bool"}, '(?x. P x) & (?y. Q y) --> (?x. ?y. P x & Q y)'),
+    ({'P': "'a => bool", 'Q': "'a => bool"}, '(!x. P x) & (!x. Q x) --> (!x. P x & Q x)'),
+    ({'P': "'a => bool", 'A': 'bool'}, '(?x. P x --> A) --> (!x. P x) --> A'),
 ]
 
 
